@@ -1,10 +1,10 @@
 #!/bin/bash
-# re-runs the seeded mutants given as arguments (default: those the last campaign missed); results in build/mutation-results.txt (replacing earlier lines)
+# re-runs the seeded mutants given as arguments (default: those the last campaign missed); results in seeded/latest-results.txt (replacing earlier lines)
 cd /verif
 ids="$@"
-[ -z "$ids" ] && ids=$(grep -E 'rc=0|does not apply' build/mutation-results.txt | sed 's/[: ].*//' | sort -u)
+[ -z "$ids" ] && ids=$(grep -E 'rc=0|does not apply' seeded/latest-results.txt | sed 's/[: ].*//' | sort -u)
 for id in $ids; do
   prop=${id%%-*}
-  grep -v "^$id[ :]" build/mutation-results.txt > build/mr.tmp; mv build/mr.tmp build/mutation-results.txt
-  tools/run_mutant.sh $id $prop >> build/mutation-results.txt 2>&1
+  grep -v "^$id[ :]" seeded/latest-results.txt > build/mr.tmp; mv build/mr.tmp seeded/latest-results.txt
+  tools/run_mutant.sh $id $prop >> seeded/latest-results.txt 2>&1
 done
